@@ -8,6 +8,7 @@ import D2P.Props.C02Deep
 import D2P.Props.C02DeepCells
 import D2P.Props.C02Post
 import D2P.Props.C05Post
+import D2P.Props.C02PostAny
 /-!
 # Open findings, as kernel-checked witnesses
 
@@ -207,6 +208,22 @@ theorem C05_post_witness :
     (match newDepthCollector cfgNoDup [] nestDoc with
       | .ok dc => (metaL dc.root).map (fun (m : Meta) => (m.1, m.2.2 == tableLineage)) | .error _ => [])
       = [(9, false), (64, true), (1, false), (20, false)] := by
+  decide +kernel
+
+/-- a vertically merged column whose continuation cell holds a paragraph of its own -/
+def vmDoc : Xml :=
+  el 0 "body" [] none [p 1 [r 2 [t 3 "a"]],
+    tbl 10 [tr 11 [tc 12 [el 13 "vMerge" [wattr "val" "restart"] none []] [p 14 [r 15 [t 16 "top"]]]],
+            tr 21 [tc 22 [el 23 "vMerge" [] none []] [p 24 [r 25 [t 26 "hidden"]]]]],
+    p 50 [r 51 [t 52 "z"]]]
+
+/-- `C02_post_part_any` is the most that holds with duplication on: `vfree` fails for `vmDoc`, the continuation cell's own
+paragraph 24 is replaced by a copy of the cell above, the records are a PROPER sublist of `post`; with duplication off
+(`C02_post_part`) they are `post` -/
+theorem post_any_witness :
+    vfree vmDoc = false ∧ post vmDoc = [1, 14, 24, 50] ∧
+    (match newDepthCollector cfgDup [] vmDoc with | .ok dc => elemsOf (leafParsL dc.root) | .error _ => []) = [1, 14, 50] ∧
+    (match newDepthCollector cfgNoDup [] vmDoc with | .ok dc => elemsOf (leafParsL dc.root) | .error _ => []) = [1, 14, 24, 50] := by
   decide +kernel
 
 end D2P.Ex
